@@ -205,7 +205,7 @@ def case_st(max_ops):
                 d = draw(st.sampled_from([1, 2, 3, 4]))
                 # slow consumers: small fractions; fast: full
                 ops.append(["pull", draw(st.integers(0, 3)), draw(st.integers(0, d)), d])
-        return {"consumers": cons, "ops": ops, "limit": draw(st.sampled_from([None, None, None, 0, 16]))}
+        return {"consumers": cons, "ops": ops, "limit": draw(st.sampled_from([None, None, None, 0, 16, 30, 60, 100]))}  # 24-byte payloads: 0-4 data sets stay in RAM
 
     return build()
 
@@ -222,7 +222,7 @@ def deep_case(draw):
         else:
             d = draw(st.sampled_from([37, 64, 97, 131]))
             ops.append(["pull", draw(st.integers(0, 2)), draw(st.integers(1, 4)), d])
-    return {"consumers": cons, "ops": ops, "limit": draw(st.sampled_from([None, None, 0, 16]))}
+    return {"consumers": cons, "ops": ops, "limit": draw(st.sampled_from([None, None, 0, 16, 60, 100, 250]))}
 
 
 def check_huge(case, ctx):
@@ -242,9 +242,9 @@ def check_huge(case, ctx):
 
 def enum_huge(tier):
     for n in ((1030, 2060) if tier == "quick" else (1023, 1024, 1025, 1030, 2049, 2060, 4100)):
-        for limit in (0, 16, None):
+        for limit in (0, 16, 100, None):
             for chain0, chain1 in (([], []), ([["scale", 1.0]], [["dfix", 45]])):
-                if tier == "quick" and n > 1030 and (limit != 0 or chain0):
+                if tier == "quick" and (n > 1030 and (limit != 0 or chain0) or limit == 100 and chain0):
                     continue
                 yield {"n": n, "creep": 40, "limit": limit, "chain0": chain0, "chain1": chain1}
 
